@@ -1147,7 +1147,7 @@ LIG_SEQ = 101
 def _kind(res_name):
     if res_name in ("HOH", "WAT"):
         return "water"
-    if res_name in ("XYZ", "XYQ"):
+    if res_name in ("XYZ", "XYQ", "QQQ"):
         return "foreign-hetero-group"
     if res_name == "ZN":
         return "ion"
@@ -1208,6 +1208,9 @@ def complex_pdb(mol, names, extras, with_ligand=True):
         het(names[i], "XYQ", 302, (-15.0, 13.0, -12.0),
             element(mol.types[i]))
         het("QQ1", "XYQ", 302, (-13.5, 13.0, -12.0), "C")
+    if "QQQ" in extras:  # private names only, listed after the ligand
+        het("QA1", "QQQ", 303, (-16.0, -3.0, 12.0), "C")
+        het("QA2", "QQQ", 303, (-14.5, -3.0, 12.0), "O")
     if "ZN" in extras:
         het("ZN", "ZN", 401, (16.0, 16.0, -14.0), "ZN")
     lines.append("END")
@@ -1256,9 +1259,12 @@ def check_complex_cell(case, rec):
             names = make_names(mol, naming)
             one = {"mode": "complex", "ff": ff, "extras": extras,
                    "ligands": [lig], "namings": [naming]}
+            if "mol2_resname" in case:
+                one["mol2_resname"] = case["mol2_resname"]
             tag = f"{naming}"
             mol2 = write_mol2(mol, ident, names,
-                              "asis" if mol.orig_names else "sorted")
+                              "asis" if mol.orig_names else "sorted",
+                              resname=case.get("mol2_resname", "LIG"))
             ref = reference(mol, names)
             if ref is None:
                 rec.event("complex:reference-run-aborts")
@@ -1542,7 +1548,16 @@ def enumerate_cases(tier, seed):
                 cases.append({"mode": "complex", "ff": "PARSE", "extras": ex,
                               "ligands": ligs[:2],
                               "namings": list(COMPLEX_NAMINGS)})
-    else:
+    # MOL2 substructure named differently from the PDB residue (the bundled
+    # ligands: UNK vs KNI): the documented fall-back matches by atom names.
+    # Only hetero groups whose names cannot be confused with the ligand's are
+    # added, so "the ligand's atoms" stays unambiguous.
+    for ex in _subsets(("W1", "QQQ", "ZN")):
+        cases.append({"mode": "complex", "ff": "AMBER", "extras": ex,
+                      "ligands": ["methanol", "acetate"],
+                      "namings": ["private", "elem-index"],
+                      "mol2_resname": "UNK"})
+    if tier != "quick":
         ligs = list(COMPLEX_LIGANDS)
         for ff in ("AMBER", "PARSE", "CHARMM"):
             for ex in subsets:
